@@ -458,6 +458,22 @@ func newWalletBatch(b *Batch, fr *core.Rand, thorough bool) {
 		b.Fixed = append(b.Fixed, mk(fr, 4, uint8(k%3), true, "entropy", entropyPlan(fr, "error", k)))
 		b.Fixed = append(b.Fixed, &Episode{Kind: "wallet-dil", Profile: "c09-entropy", Create: "entropy", Entropy: entropyPlan(fr, "error", k), NSigs: 1, Forms: dForms, DrainSeed: fr.Uint64()})
 	}
+	// seeds with extreme byte patterns
+	for i, pat := range [][2]byte{{0x00, 0x00}, {0xff, 0xff}, {0xff, 0x00}, {0x00, 0xff}, {0x0f, 0xf0}, {0x20, 0x20}} {
+		sd := make([]byte, 48)
+		for j := range sd {
+			sd[j] = pat[1]
+		}
+		sd[0], sd[47] = pat[0], pat[0]
+		b.Fixed = append(b.Fixed, &Episode{Kind: "wallet-dil", Profile: "c09-patterns", Create: "seed", SeedHex: hex.EncodeToString(sd), NSigs: 2, Forms: dForms, DrainSeed: fr.Uint64()})
+		b.Fixed = append(b.Fixed, &Episode{Kind: "wallet-xmss", Profile: "c09-patterns", Height: []uint8{4, 6, 8, 10, 12, 14}[i], Hash: uint8(i % 3), Stub: true, SeedHex: hex.EncodeToString(sd), Create: "seed", NSigs: 3, Forms: xForms, DrainSeed: fr.Uint64()})
+	}
+	if thorough {
+		// tall trees: the height nibble of the descriptor above 16
+		for i, h := range []uint8{22, 24, 26} {
+			b.Fixed = append(b.Fixed, &Episode{Kind: "wallet-xmss", Profile: "c09-tall", Height: h, Hash: uint8(i % 3), Stub: true, SeedHex: seedHex(fr), Create: "seed", NSigs: 2, Forms: []string{"mnemonic", "hex"}, DrainSeed: fr.Uint64()})
+		}
+	}
 	// mnemonic word coverage: every 12-bit word index occurs in a recovered
 	// secret, for the 48-byte (Dilithium) and the 51-byte (XMSS) codec paths
 	wordSeed := func(first int, nwords int) []byte {
